@@ -322,6 +322,11 @@ pub fn check(case: &Case, idx: u64, acc: &mut Acc) {
             let bm = Bitmap::of(&cal, lo, hi);
             let ns = counts(*all_counts);
             check_cal(&cal, &bm, *from, *to, &ns, *all_counts, "NamedCal", case, idx, acc);
+            if name.contains('|') && *all_counts {
+                // the same calendar inside the CalType container, judged against the named calendar's predicates
+                let ct = rateslib::calendars::CalType::NamedCal(cal.clone());
+                check_cal(&ct, &bm, *from, *to, &ns, *all_counts, "CalType/NamedCal", case, idx, acc);
+            }
             acc.sample(|| serde_json::to_value(case).unwrap());
         }
     }
@@ -407,7 +412,7 @@ pub fn run(ctx: &Ctx, replay_file: Option<String>) -> ! {
          the settlement calendar (absent, Sat-Sun, Sun+Mon, none); EVERY i8 day count, both settlement flags, every \
          start date of the window +-1: add_bus_days (value, error on a non-business start, inverse law), lag, \
          add_days under all 5 modifiers, bus_date_range for every (start, end) pair; the holiday vector is handed over in date order, reversed, interleaved or with every date twice (by case index). (1b) long runs of 12, 35, 64, 367 and 430 consecutive closures at every weekday alignment, every i8 count from the days \
-         around both ends of the run. (2) named calendars: every date \
+         around both ends of the run. (2) named calendars (those with settlement calendars also wrapped in the CalType container): every date \
          of several years x every i8; every built-in calendar over every date 1970-2200 x a reduced count menu \
          (|n|<=10 and +-20,63,64,100,126,127,-128). Oracle: index arithmetic on the sorted list of the calendar's own \
          business days, then linear search for the first settleable day in the direction of n. Non-trivial: calls \
